@@ -573,3 +573,15 @@ Definition apply_rw_items (r : rewrites) (orig_auth : list N) (l : list item) : 
   if rw_noop r then l
   else filter (fun i => match i with IH h => negb (rw_drops r h) | ICookies => true end) l ++
        map IH (rw_inserts r orig_auth).
+
+(* ------------------------------------------------------------------ *)
+(** * [command/src/state.rs] [validate_sozu_id_header]: the reserved names *)
+
+Definition reserved_id_names : list (list N) :=
+  [ B "host"; B "content-length"; B "transfer-encoding"; B "connection"; B "proxy-connection"; B "keep-alive";
+    B "te"; B "trailer"; B "upgrade"; B "http2-settings"; B "cookie"; B "set-cookie"; B "forwarded";
+    B "x-forwarded-for"; B "x-forwarded-proto"; B "x-forwarded-port"; B "x-forwarded-host"; B "x-real-ip";
+    B "x-request-id"; B "user-agent"; B "traceparent"; B "tracestate"; B "strict-transport-security" ].
+
+(** the part of the validator the theorems need (the token grammar is checked too, by the code) *)
+Definition valid_id_name (n : list N) : bool := negb (existsb (eq_nc n) reserved_id_names).
